@@ -1,4 +1,5 @@
 import CgtModel.Report
+import CgtModel.Config
 import CgtModel.Lemmas.LegArith
 import CgtModel.Lemmas.Round
 /-! # C04 — report arithmetic is self-consistent from legs to tax-year totals
@@ -180,4 +181,50 @@ theorem C04_override_lookup (over base : List (Int × Rat)) (y : Int) :
 example : lookupExemption exemptions 2023 = some 6000 := by decide +kernel
 example : lookupExemption exemptions 2013 = none := by decide +kernel
 
+
+/-! ### exemption configuration: embedded table and override files -/
+section config
+
+theorem lookup_extend (base over : List (Int × Rat)) (y : Int) :
+    lookupExemption (extendTable base over) y =
+      match lookupExemption over y with
+      | some a => some a
+      | none => lookupExemption base y := by
+  unfold lookupExemption extendTable
+  rw [List.find?_append]
+  cases h : List.find? (fun p => decide (p.1 = y)) over <;> simp
+
+/-- an override file that names a year replaces (or adds) that year's amount … -/
+theorem C04_override_replaces (emb over : List (Int × Rat)) (y : Int) (a : Rat)
+    (h : lookupExemption over y = some a) :
+    lookupExemption (loadWithOverrides emb [some over]) y = some a := by
+  simp only [loadWithOverrides, List.foldl_cons, List.foldl_nil, lookup_extend, h]
+
+/-- … every other year keeps the embedded amount (or stays unconfigured) -/
+theorem C04_override_keeps_rest (emb over : List (Int × Rat)) (y : Int)
+    (h : lookupExemption over y = none) :
+    lookupExemption (loadWithOverrides emb [some over]) y = lookupExemption emb y := by
+  simp only [loadWithOverrides, List.foldl_cons, List.foldl_nil, lookup_extend, h]
+
+/-- an absent or unparseable override file changes nothing -/
+theorem C04_absent_override (emb : List (Int × Rat)) (fs : List OverrideFile) :
+    loadWithOverrides emb (none :: fs) = loadWithOverrides emb fs := by
+  simp [loadWithOverrides]
+
+/-- with both files (`./config.toml`, then `~/.config/cgt-tool/config.toml`) the later file wins
+    where both name a year, and a year named by either is configured -/
+theorem C04_two_overrides (emb o1 o2 : List (Int × Rat)) (y : Int) :
+    lookupExemption (loadWithOverrides emb [some o1, some o2]) y =
+      match lookupExemption o2 y with
+      | some a => some a
+      | none => match lookupExemption o1 y with
+        | some a => some a
+        | none => lookupExemption emb y := by
+  simp only [loadWithOverrides, List.foldl_cons, List.foldl_nil, lookup_extend]
+
+example : lookupExemption (loadWithOverrides exemptions [some [(2024, 1234), (2031, 5000)]]) 2024 = some 1234
+    ∧ lookupExemption (loadWithOverrides exemptions [some [(2024, 1234), (2031, 5000)]]) 2031 = some 5000
+    ∧ lookupExemption (loadWithOverrides exemptions [some [(2024, 1234), (2031, 5000)]]) 2023 = some 6000 := by
+  decide +kernel
+end config
 end Cgt.C04
